@@ -810,6 +810,82 @@ def _top_index(body, node):
 
 
 # --------------------------------------------------------------------- R5
+
+def _counter_by_walk(chk, m, f, fname, kind):
+    """A counter written as ``sum(1 for _ in <walk>(node, ...))`` /
+    ``len(list(<walk>(...)))``: the walk must be complete (no depth limit)
+    and, for count_exprs, filtered by "not a leaf".  Returns False if the
+    function does not have this form."""
+    rets = [r for r in walk_no_nested(f) if isinstance(r, ast.Return)]
+    if len(rets) != 1 or rets[0].value is None:
+        return False
+    v = expand_locals(f, rets[0].value)
+    walk = None
+    cond = None
+    if isinstance(v, ast.Call) and call_name(v) == 'sum' and len(
+            v.args) == 1 and isinstance(v.args[0], ast.GeneratorExp) and \
+            isinstance(v.args[0].elt, ast.Constant) and \
+            v.args[0].elt.value == 1 and len(v.args[0].generators) == 1:
+        g = v.args[0].generators[0]
+        walk = g.iter
+        if g.ifs:
+            cond = (g.target, g.ifs)
+    elif isinstance(v, ast.Call) and call_name(v) == 'len' and len(
+            v.args) == 1 and isinstance(v.args[0], ast.Call) and call_name(
+                v.args[0]) in ('list', 'tuple') and v.args[0].args:
+        walk = v.args[0].args[0]
+    if not (isinstance(walk, ast.Call) and (call_name(walk) or '').split(
+            '.')[-1] in ('dfs', 'bfs', 'filter_nodes')):
+        return False
+    where = f'nodes.{fname}'
+    wn = (call_name(walk) or '').split('.')[-1]
+    p0 = params_of(f)[0]
+    chk.check('C12.R5', where, f'{unparse(walk)[:60]}: walks the argument',
+              bool(walk.args) and unparse(walk.args[0]) == p0,
+              'the counter does not walk its argument', loc=m.loc(walk),
+              nontrivial=True)
+    # effective depth limit
+    wf = m.func(wn)
+    wps = params_of(wf)
+    depth = None
+    if 'max_depth' in wps:
+        i = wps.index('max_depth')
+        if i < len(walk.args):
+            depth = walk.args[i]
+        elif kw(walk, 'max_depth') is not None:
+            depth = kw(walk, 'max_depth')
+        else:
+            dfl = wf.args.defaults
+            di = i - (len(wps) - len(dfl))
+            depth = dfl[di] if 0 <= di < len(dfl) else None
+    unlimited = depth is None or (isinstance(depth, ast.Constant)
+                                  and depth.value in (None, 0))
+    chk.check('C12.R5', where, f'{unparse(walk)[:60]}: no depth limit',
+              unlimited,
+              f'the walk is limited to depth {unparse(depth) if depth is not None else ""} '
+              f'(the default of {wn}() when none is given): dfs descends '
+              'only while "not max_depth or cur_depth < max_depth", so with '
+              'this value nodes below the top level are never visited and '
+              'the count is too small', loc=m.loc(walk), nontrivial=True)
+    pred = None
+    if wn == 'filter_nodes' and len(walk.args) > 1:
+        pred = walk.args[1]
+    if kind == 'count-lists':
+        txt = unparse(pred) if pred is not None else (
+            unparse(cond[1][0]) if cond else '')
+        ok = 'is_leaf()' in txt and txt.replace(' ', '').startswith(
+            ('lambda', 'not')) and 'not' in txt
+        chk.check('C12.R5', where, 'counts exactly the non-leaves', ok,
+                  f'count_exprs must count the nodes that are not leaves; '
+                  f'the filter is "{txt}"', loc=m.loc(walk), nontrivial=True)
+    else:
+        chk.check('C12.R5', where, 'counts every node',
+                  pred is None and cond is None,
+                  'count_nodes must count every node of the walk',
+                  loc=m.loc(walk), nontrivial=True)
+    return True
+
+
 WALKERS = {
     # func: (container pops, order-sensitive, kind)
     'dfs': ('pop', True, 'yield'),
@@ -889,6 +965,9 @@ def rule_r5(chk, prog):
         where = f'nodes.{fname}'
         cfg = cfg_of(f)
         loops = [n for n in walk_no_nested(f) if isinstance(n, ast.While)]
+        if not loops and kind.startswith('count') and \
+                _counter_by_walk(chk, m, f, fname, kind):
+            continue
         if len(loops) != 1:
             raise AnalysisError(f'{fname}: expected one work loop')
         paths = loop_body_paths(cfg, loops[0])
